@@ -31,7 +31,7 @@ type c10Case struct {
 	Ops []c10Op `json:"ops"`
 }
 
-var c10Pool = []string{"b", "a.b", "a", "main", "ab", "a-b", "B", "z.9", "ma", "main2", ".wip", "b.", "_"}
+var c10Pool = []string{"b", "a.b", "a", "main", "ab", "a-b", "B", "z.9", "ma", "main2", ".wip", "b.", "_", "a.tmp", "main.tmp", "b.lock"}
 
 func c10Hash(i int) string { return gitfmt.HashObject("commit", []byte(fmt.Sprint("c", i))) }
 
